@@ -432,6 +432,10 @@ class Interp:
                 v = self.ev(f.value, env)
                 if isinstance(v, T):
                     return RStrip(v, e.args[0].value)
+            if f.attr in ('rstrip',) and not e.args and not e.keywords:
+                v = self.ev(f.value, env)
+                if isinstance(v, T):
+                    return RStrip(v, None)       # None: all whitespace
             if f.attr == 'join' and len(e.args) == 1:
                 sep = self.ev(f.value, env)
                 arg = self.ev(e.args[0], env)
@@ -911,6 +915,10 @@ def pred_lang(test, var, alpha, atom=None):
             return rl('.+')
         if norm(t) in ('%s.strip()' % var, '%s.lstrip()' % var, '%s.rstrip()' % var):
             return rl(r'.*\S.*')
+        if isinstance(t, ast.Call) and isinstance(t.func, ast.Attribute) and t.func.attr in ('strip', 'lstrip', 'rstrip') and norm(t.func.value) == var \
+                and len(t.args) == 1 and isinstance(t.args[0], ast.Constant) and isinstance(t.args[0].value, str) and t.args[0].value:
+            # non-empty after stripping the given characters <=> some character is outside the set
+            return rl('.*[^' + ''.join(re.escape(ch) for ch in t.args[0].value) + '].*')
         if isinstance(t, ast.Compare) and len(t.ops) == 1:
             l, op, r = t.left, t.ops[0], t.comparators[0]
             if isinstance(r, ast.Constant) and isinstance(r.value, str):
@@ -924,6 +932,14 @@ def pred_lang(test, var, alpha, atom=None):
                     res = rl(r'\s*' + re.escape(c))
                 elif norm(l) == '%s.rstrip()' % var and c == c.rstrip():
                     res = rl(re.escape(c) + r'\s*')
+                elif isinstance(l, ast.Subscript) and norm(l.value) == var and isinstance(l.slice, ast.Slice) and l.slice.step is None:
+                    # prefix / suffix slices compared with a constant
+                    lo = l.slice.lower.value if isinstance(l.slice.lower, ast.Constant) else None if l.slice.lower is not None else 0
+                    up = l.slice.upper.value if isinstance(l.slice.upper, ast.Constant) else None if l.slice.upper is not None else 'end'
+                    if lo == 0 and isinstance(up, int) and up > 0:
+                        res = rl(re.escape(c) + '.*') if len(c) == up else rl(re.escape(c)) if len(c) < up else anyl.complement()
+                    elif isinstance(lo, int) and lo < 0 and up == 'end':
+                        res = rl('.*' + re.escape(c)) if len(c) == -lo else rl(re.escape(c)) if len(c) < -lo else anyl.complement()
                 elif isinstance(l, ast.Subscript) and norm(l.value) == var and len(c) == 1:
                     try:
                         k = ast.literal_eval(l.slice)
@@ -995,6 +1011,7 @@ class TBuilder:
         self.tags = tags               # path or 'join(src)' -> marker group name
         self.eps, self.tr, self.mk = [], [], []
         self.used = set()
+        self.preserve = None           # slot paths wrapped in ('open'/'close', '@p') markers wherever they occur
 
     def new(self):
         self.eps.append([])
@@ -1028,6 +1045,33 @@ class TBuilder:
         self.eps[cur].append(base)
         return end
 
+    def embed_marked(self, cur, lang):
+        """embed a DFA over Σ ∪ markers (same marker list as this builder)"""
+        if list(lang.markers) != self.markers:
+            raise AnalysisError('internal: embedded automaton has other markers')
+        base = len(self.eps)
+        for _ in lang.trans:
+            self.new()
+        end = self.new()
+        nA = self.alpha.n
+        co = rx._coacc(lang)
+        for q, row in enumerate(lang.trans):
+            if q not in co:
+                continue
+            by = {}
+            for s in range(nA):
+                if row[s] in co:
+                    by[row[s]] = by.get(row[s], 0) | (1 << s)
+            for t, m in by.items():
+                self.tr[base + q].append((m, base + t))
+            for k, mkr in enumerate(self.markers):
+                if row[nA + k] in co:
+                    self.mk[base + q].append((mkr, base + row[nA + k]))
+            if lang.acc[q]:
+                self.eps[base + q].append(end)
+        self.eps[cur].append(base)
+        return end
+
     def tagged(self, cur, tag, inner, in_repeat):
         if tag is not None and not in_repeat and ('open', tag) in self.markers:
             if tag in self.used:
@@ -1048,6 +1092,13 @@ class TBuilder:
             lang = self.slot_lang(t.path)
             if isinstance(lang, T):
                 return self.term(lang, cur, in_repeat)     # structured slot: expand in place
+            if self.preserve is not None and t.path in self.preserve:
+                n0 = self.new()
+                self.mk[cur].append((('open', '@p'), n0))
+                e = self.embed(n0, lang)
+                n1 = self.new()
+                self.mk[e].append((('close', '@p'), n1))
+                return n1
             return self.tagged(cur, self.tags.get(t.path), lambda c: self.embed(c, lang), in_repeat)
         if isinstance(t, Cat):
             for x in t.items:
@@ -1075,8 +1126,13 @@ class TBuilder:
             pl = pred_lang(t.test, t.var, self.alpha)
             return self.embed(cur, base.intersect(pl if t.pol else pl.complement()))
         if isinstance(t, RStrip):
-            base = TBuilder(self.alpha, [], self.slot_lang, {}).lang(t.term)
-            return self.embed(cur, rstrip_lang(base, t.chars))
+            if in_repeat or not self.markers:
+                base = TBuilder(self.alpha, [], self.slot_lang, {}).lang(t.term)
+                return self.embed(cur, rstrip_lang(base, t.chars))
+            # slots inside the stripped term keep their markers: strip on the marked language
+            sub = TBuilder(self.alpha, self.markers, self.slot_lang, self.tags)
+            sub.used = self.used
+            return self.embed_marked(cur, rstrip_marked(sub.lang(t.term), t.chars))
         if isinstance(t, Join):
             def inner(c):
                 first = self.term(t.item, c, True)
@@ -1134,7 +1190,7 @@ class TBuilder:
 def rstrip_lang(lang, chars):
     """{ w.rstrip(chars) : w in lang }"""
     alpha = lang.alpha
-    cs = [alpha.idx[c] for c in chars]
+    cs = [alpha.idx[c] for c in chars] if chars is not None else [i for i, c in enumerate(alpha.syms) if isinstance(c, str) and c.isspace()]
     fin = {q for q, a in enumerate(lang.acc) if a}
     changed = True
     while changed:
@@ -1149,6 +1205,93 @@ def rstrip_lang(lang, chars):
         return (lang.trans[q][sym], sym in cs)
     return rx.from_function(alpha, [], (0, False), step, lambda S: S[0] in fin and not S[1],
                             rx.split_classes(lang.classes(), [1 << c for c in cs]))
+
+
+def rstrip_marked(lang, chars):
+    """{ rstrip(w) : w in lang } on a marked language: the trailing characters of the set are deleted, the
+    markers that stood among them are kept (they end up at the end of the text)"""
+    alpha = lang.alpha
+    nA = alpha.n
+    cs = set(alpha.idx[c] for c in chars) if chars is not None else {i for i, c in enumerate(alpha.syms) if isinstance(c, str) and c.isspace()}
+
+    def close(S):
+        # tail mode: deleted characters of the set are read silently
+        st = [x for x in S if x[1]]
+        seen = set(S)
+        while st:
+            q, _t, _l = st.pop()
+            for c in cs:
+                n = (lang.trans[q][c], True, False)
+                if n not in seen:
+                    seen.add(n)
+                    st.append(n)
+        return frozenset(seen)
+
+    def start():
+        return close({(0, False, False), (0, True, False)})
+
+    def step(S, sym):
+        out = set()
+        for q, tail, last in S:
+            if sym >= nA:
+                out.add((lang.trans[q][sym], tail, last))
+            elif not tail:
+                n = lang.trans[q][sym]
+                incs = sym in cs
+                out.add((n, False, incs))
+                if not incs:
+                    out.add((n, True, False))     # the kept text may end here
+        return close(out)
+
+    def accepting(S):
+        return any(lang.acc[q] and (tail or not last) for q, tail, last in S)
+    return rx.from_function(alpha, list(lang.markers), start(), step, accepting,
+                            rx.split_classes(lang.classes(), [1 << c for c in cs]))
+
+
+def rstrip_nodes(term, out=None):
+    out = [] if out is None else out
+    if isinstance(term, RStrip):
+        out.append(term)
+        rstrip_nodes(term.term, out)
+    elif isinstance(term, (Cat, Alt)):
+        for x in term.items:
+            rstrip_nodes(x, out)
+    elif isinstance(term, Star):
+        rstrip_nodes(term.item, out)
+    elif isinstance(term, (Refine, Tagged)):
+        rstrip_nodes(term.term, out)
+    elif isinstance(term, Join):
+        rstrip_nodes(term.sep, out)
+        rstrip_nodes(term.item, out)
+    return out
+
+
+def strip_loss_witness(term, alpha, slot_lang, preserve):
+    """a string (shown with ⟨@p: … :@p⟩ around the slots that must be written verbatim) on which an rstrip() of the
+    template deletes a character that belongs to such a slot; None when no rstrip can touch them"""
+    markers = [('open', '@p'), ('close', '@p')]
+    nA = alpha.n
+    for r in rstrip_nodes(term):
+        b = TBuilder(alpha, markers, slot_lang, {})
+        b.preserve = set(preserve)
+        inner = b.lang(r.term)
+        cs = set(alpha.idx[c] for c in r.chars) if r.chars is not None else {i for i, c in enumerate(alpha.syms) if isinstance(c, str) and c.isspace()}
+
+        def step(s, sym, cs=cs):
+            inside, hit = s
+            if sym == nA:
+                return (True, hit)
+            if sym == nA + 1:
+                return (False, hit)
+            if sym in cs:
+                return (inside, hit or inside)
+            return (inside, False)
+        mon = rx.from_function(alpha, markers, (False, False), step, lambda s: s[1], rx.split_classes([alpha.full], [1 << c for c in cs]))
+        w = inner.intersect(mon).witness()
+        if w is not None:
+            return w
+    return None
 
 
 def template_langs(term, alpha, slot_lang, tags, groups):
